@@ -252,7 +252,11 @@ func flowLocksets(prop string) func(w *World) []*Obligation {
 					for i := 0; st != nil && i < st.NumFields(); i++ {
 						have[st.Field(i).Name()] = true
 					}
-					for _, f := range append([]string{g.Lock}, g.Fields...) {
+					fl := append([]string{g.Lock}, g.Fields...)
+					if g.Lock == "atomic" {
+						fl = g.Fields // "by atomic": the field is only touched through sync/atomic
+					}
+					for _, f := range fl {
 						if !have[f] {
 							bad(rel+":guarded["+g.Type+"."+f+"]", "no such field")
 						}
@@ -261,6 +265,28 @@ func flowLocksets(prop string) func(w *World) []*Obligation {
 						gs.fields[f] = true
 					}
 					guards = append(guards, gs)
+				case "nostore":
+					// the function (called concurrently on shared memory) writes memory it did
+					// not allocate itself only through sync/atomic: no plain store
+					fn := w.findFunc(pp, g.Func)
+					if fn == nil {
+						bad(rel+":nostore["+g.Func+"]", "function not found")
+						continue
+					}
+					okAll, detail := true, ""
+					for _, b := range fn.Blocks {
+						for _, ins := range b.Instrs {
+							if s, isStore := ins.(*ssa.Store); isStore {
+								if a, local := rootOf(s.Addr).(*ssa.Alloc); !local || a.Heap && a.Comment != "complit" && a.Comment != "varargs" {
+									if !local {
+										okAll = false
+										detail += "plain store: " + srcLine(w, fn, insPos(ins)) + "\n"
+									}
+								}
+							}
+						}
+					}
+					obls = append(obls, flowObl(prop, rel+"."+g.Func+":nostore", g.Func+" writes shared memory only through sync/atomic (no plain store)", okAll, detail))
 				case "held", "goroutines":
 					fn := w.findFunc(pp, g.Func)
 					if fn == nil && strings.Contains(g.Func, ".") {
@@ -345,6 +371,25 @@ func flowLocksets(prop string) func(w *World) []*Obligation {
 						}
 						if _, fresh := rootOf(i.X).(*ssa.Alloc); fresh && rootIsLocalObject(rootOf(i.X).(*ssa.Alloc)) {
 							continue // object under construction, not yet shared
+						}
+						if lk == "atomic" {
+							okAll := true
+							detail := ""
+							if refs := i.Referrers(); refs != nil {
+								for _, r := range *refs {
+									if _, dbg := r.(*ssa.DebugRef); dbg {
+										continue
+									}
+									c, isCall := r.(ssa.CallInstruction)
+									if !isCall || !strings.HasPrefix(calleeName(c.Common()), "sync/atomic.") {
+										okAll = false
+										detail += fmt.Sprintf("used by %T (%s)\n", r, srcLine(w, fn, r.Pos()))
+									}
+								}
+							}
+							name := fmt.Sprintf("%s:atomic[%s.%s]:%s", fname, n.Obj().Name(), f, srcLine(w, fn, insPos(ins)))
+							obls = append(obls, flowObl(prop, name, fmt.Sprintf("%s.%s is only touched through sync/atomic", n.Obj().Name(), f), okAll, detail))
+							continue
 						}
 						need := lsDeref(lsKey(i.X)) + "." + lk
 						name := fmt.Sprintf("%s:guarded[%s.%s]:%s", fname, n.Obj().Name(), f, srcLine(w, fn, insPos(ins)))
